@@ -243,6 +243,7 @@ func logCrashBody(c *Case, o *Outcome) {
 			}
 		}
 		hist = append(hist, fmt.Sprintf("%d crash %s: handed %d, last done %d, in callback %d", si, cur.inc.mode, len(cur.inc.handed), cur.inc.lastDone, cur.inc.inCallback))
+		o.cover(fmt.Sprintf("%s@%d/%d", cur.inc.mode, cur.inc.inCallback, appended))
 		cur = start(dir)
 		return cur != nil
 	}
